@@ -50,6 +50,7 @@ import Gts.Lemmas.GbEdit
 import Gts.Lemmas.GbLocRT
 import Gts.Lemmas.GbProps
 import Gts.Lemmas.GbCrlfReadWrite
+import Gts.Bridge.GenBankWrite
 namespace Gts.C01
 open Gts Gts.Pars Gts.GenBank
 
@@ -1109,5 +1110,57 @@ example : (∀ x ∈ streamWitness, x.1.origin = .residues x.2 ∧ WritableRecor
   obtain ⟨ho, hw, _⟩ := h x hx
   simp only [WritableRecord, Bool.and_eq_true] at hw
   exact ⟨ho, hw.1, fun f hf => locRTC_of_canon f.loc (List.all_eq_true.mp hw.2 f hf)⟩
+
+/-! ## the REGENERATED writer (go2lean gwriter: `Gts/Gen/GenBankWrite.lean`, `Gts/Bridge/GenBankWrite.lean`)
+
+`Bridge.genWrite reg r` is `GenBank.String` as it is re-read from seqio/genbank.go and seqio/insdc.go on every
+run of the check (library calls instantiated as listed in `Gts/Bridge/GenBankWrite.lean`).  The two theorems
+below restate the composition and the byte fixed point for THAT function: they stop checking when the code of
+the writer changes what it writes. -/
+
+/-- a record of the writable domain carries a valid calendar date -/
+theorem writable_date_valid (reg : Registry) (r : Record) (p : Bytes) (hw : Writable reg r p = true) :
+    r.fields.date.valid = true := by
+  have h := (writable_parts reg r p hw).1
+  simp only [locusOk, Bool.and_eq_true] at h
+  exact h.1.2
+
+/-- **read (write r) for the regenerated writer**, decidable hypotheses only: for a record of the domain
+`WritableRecord` the text that `GenBank.String` — as written in the tree — produces is read by `GenBankParser`,
+followed by ANY further text, as `readBack reg r p`, consuming exactly that text. -/
+theorem gen_read_write_canon (reg : Registry) (r : Record) (p : Bytes) (ho : r.origin = .residues p)
+    (hw : WritableRecord reg r p = true) (rest' : Bytes) :
+    ∃ t, Bridge.genWrite reg r = .ok t ∧
+      genbankParser reg ⟨t ++ rest', []⟩ = (.ok (readBack reg r p, learnTable reg r.table), ⟨rest', []⟩) := by
+  have hw1 : Writable reg r p = true := by
+    simp only [WritableRecord, Bool.and_eq_true] at hw; exact hw.1
+  rw [Bridge.genWrite_eq reg r (writable_date_valid reg r p hw1)]
+  exact read_write_canon reg r p ho hw rest'
+
+/-- **write → read → write for the regenerated writer** (guard `namesAdjacent` as in
+`write_read_write_partial`): the text `t` the code of the tree writes for a `Writable` record is read back
+as `readBack reg r p` under the registry `learnTable reg r.table`, and the code of the tree writes THAT
+record under THAT registry as `t` again, byte for byte. -/
+theorem gen_write_read_write_partial (reg : Registry) (r : Record) (p : Bytes) (ho : r.origin = .residues p)
+    (hw : Writable reg r p = true) (hloc : ∀ x ∈ r.table, LocRT x.loc)
+    (namesAdjacent : tableAdjacent r.table = true) (rest' : Bytes) :
+    ∃ t, Bridge.genWrite reg r = .ok t ∧
+      genbankParser reg ⟨t ++ rest', []⟩ = (.ok (readBack reg r p, learnTable reg r.table), ⟨rest', []⟩) ∧
+      Bridge.genWrite (learnTable reg r.table) (readBack reg r p) = .ok t := by
+  have hv := writable_date_valid reg r p hw
+  have hv' : (readBack reg r p).fields.date.valid = true := hv
+  rw [Bridge.genWrite_eq reg r hv, Bridge.genWrite_eq _ _ hv']
+  exact write_read_write_partial reg r p ho hw hloc namesAdjacent rest'
+
+/-- non-vacuity: `wrwWitness` (region, multi-line DEFINITION, quoted / toggle / unknown / literal qualifiers,
+residues) meets the hypotheses of `gen_read_write_canon` and `gen_write_read_write_partial`, and the regenerated
+writer answers a text for it -/
+example : wrwWitness.origin = .residues (List.replicate 12 97) ∧
+    WritableRecord Registry.default wrwWitness (List.replicate 12 97) = true ∧
+    tableAdjacent wrwWitness.table = true ∧
+    ∃ t, Bridge.genWrite Registry.default wrwWitness = .ok t := by
+  refine ⟨rfl, by decide +kernel, by decide +kernel, ?_⟩
+  obtain ⟨t, h, _⟩ := gen_read_write_canon Registry.default wrwWitness (List.replicate 12 97) rfl (by decide +kernel) []
+  exact ⟨t, h⟩
 
 end Gts.C01
